@@ -309,6 +309,8 @@ def configs(tier):
             for om in (False, True):
                 out.append({'class': cls, 'max_size': ms, 'on_miss': om, 'prefill': pre})
         out.append({'class': cls, 'max_size': 2, 'on_miss': 'raise', 'prefill': starts[0][1]})    # a loader that raises
+        # a cache nothing has touched yet: the threads' operations are its very first ones (lazily created state)
+        out.append({'class': cls, 'max_size': 2, 'on_miss': False, 'prefill': ()})
     return out
 
 
@@ -347,6 +349,8 @@ def programs(tier):
     quick = tier == 'quick'
     for cfg in configs(tier):
         A = alphabet(cfg, quick=quick)
+        if not cfg['prefill']:
+            A = alphabet(cfg, reduced=True) + [('update', (('a', 8), ('c', 4))), ('in', 'a'), ('repr',)]
         core_cfg = cfg['max_size'] == 2 and len(cfg['prefill']) == 2
         for i, x in enumerate(A):
             for y in A[i:]:
@@ -365,6 +369,9 @@ def programs(tier):
         if core_cfg:
             seqs = [(x, y) for x in R[:4] for y in R[:4] if x != y] if not quick else \
                    [(R[0], R[1]), (R[1], R[0]), (R[2], R[0]), (R[3], R[1]), (R[4], R[2])]
+            # a thread whose bulk update failed part-way goes on using the cache (state left behind by the exception)
+            UB = ('update_bad', (('c', 3), ('d', 4)))
+            seqs = seqs + [(UB, R[0]), (UB, R[4])] + ([] if quick else [(UB, R[1]), (('update_genraises', (('c', 3), ('a', 6))), R[0])])
             b22 = 1 if quick else 2
             for i, p in enumerate(seqs):
                 for q in seqs[i:]:
